@@ -275,7 +275,7 @@ class Check:
     def run(self, tier, seed, rec):
         harness.boot()
         items = []
-        plan = [(2, 2, True), (3, 2, True)] + ([(4, 1, False)] if tier == "quick" else [(4, 2, False), (4, 1, True), (5, 1, False)])
+        plan = [(2, 2, True), (3, 2, True)] + ([] if tier == "quick" else [(4, 2, False), (4, 1, True), (5, 1, False)])
         for n, k, run_all in plan:
             gs = harness.seeded_order(list(G.all_graphs(n, k)), seed)
             for ch in harness.chunks(gs, max(1, len(gs) // 48 + 1)):
@@ -289,7 +289,7 @@ class Check:
         multi = [r for r in rs if isinstance(corpus.run_kwargs(r).get("script"), str) and corpus.run_kwargs(r)["script"].count(";") >= 2]
         maxperm = 4 if tier == "quick" else 6
         if tier == "quick":
-            multi = sorted(multi, key=lambda r: len(corpus.run_kwargs(r)["script"]))[:80]
+            multi = sorted(multi, key=lambda r: len(corpus.run_kwargs(r)["script"]))[:60]
         harness.pmap(corpus_item, [[(r, maxperm) for r in ch] for ch in harness.chunks(multi, 6)], rec)
         return {"exhaustive": True, "plan": plan, "corpus_multi_statement": len(multi)}
 
